@@ -932,8 +932,16 @@ fn free_case(seed: u64, big: bool) -> (String, String, bool) {
                     // leave: window ends here; read what was queued before leaving, then disconnect
                     subs.lock().unwrap()[idx].t_end = Some(ticket.fetch_add(1, Ordering::SeqCst));
                     if let Some(l) = q.as_mut() {
-                        if lr.chance(1, 3) { l.suspend().await; tokio::task::yield_now().await; }
+                        // read what is queued *before* asking for suspension: `query()` on a suspended link first has to
+                        // lift the suspension (a command round trip to the gate), so `now_or_never` on it gives up with
+                        // the queue still full whenever that round trip is not instantaneous (a load-dependent
+                        // `delivery:lost` false alarm of the thorough tier, session 6)
                         while let Some(Ok(u)) = tokio::task::unconstrained(l.query()).now_or_never() { subs.lock().unwrap()[idx].got.push(rd_update(&u)); }
+                        if lr.chance(1, 3) { l.suspend().await; tokio::task::yield_now().await; }
+                        // anything pushed between the drain above and the suspension taking effect: awaited reads
+                        // (lifting the suspension again), until the queue stays empty for a moment
+                        let mut n = 0;
+                        while n < 100_000 { match tokio::time::timeout(Duration::from_millis(20), l.query()).await { Ok(Ok(u)) => { subs.lock().unwrap()[idx].got.push(rd_update(&u)); n += 1; } _ => break } }
                         l.disconnect().await;
                     }
                     if let Some(dl) = d.as_mut() { dl.disconnect().await; }
